@@ -82,31 +82,39 @@ fn smooth_once<'a, T: IteTable<'a, BddPtr<'a>> + Default>(
     let shorter = paths_in.iter().any(|p| p.len() < ns);
 
     let s = b.smooth(f, ns);
-    let got = bdd_tt(s);
-    ensure!(
-        got == t,
-        "C08/function-changed",
-        "smooth(f, {}) denotes {:?} but f denotes {:?}; f = {}, order = {:?}",
-        ns,
-        got,
-        t,
-        f.to_string_debug(),
-        order
-    );
     let want_path: Vec<usize> = order[..ns].to_vec();
-    let paths = bdd_paths(s, 100_000);
-    ensure!(paths.is_some(), "C08/too-many-paths", "smoothed diagram has more than 100000 paths for ns = {}", ns);
-    for p in paths.unwrap() {
+    let shape_ok = |d: BddPtr<'a>, what: &str| -> CaseResult {
+        let got = bdd_tt(d);
         ensure!(
-            p == want_path,
-            "C08/path-does-not-test-each-variable-once-in-order",
-            "smooth(f, {}) has a path testing {:?}; every path must test {:?} (order prefix); f = {}",
-            ns,
-            p,
-            want_path,
-            f.to_string_debug()
+            got == t,
+            "C08/function-changed",
+            "{} denotes {:?} but f denotes {:?}; f = {}, order = {:?}",
+            what,
+            got,
+            t,
+            f.to_string_debug(),
+            order
         );
-    }
+        let paths = bdd_paths(d, 100_000);
+        ensure!(paths.is_some(), "C08/too-many-paths", "{}: more than 100000 paths for ns = {}", what, ns);
+        for p in paths.unwrap() {
+            ensure!(
+                p == want_path,
+                "C08/path-does-not-test-each-variable-once-in-order",
+                "{} has a path testing {:?}; every path must test {:?} (order prefix); f = {}",
+                what,
+                p,
+                want_path,
+                f.to_string_debug()
+            );
+        }
+        Ok(())
+    };
+    shape_ok(s, &format!("smooth(f, {})", ns))?;
+    // a smoothed diagram is itself a legal input (each variable once per path, in order; the command-line
+    // tool smooths twice): smoothing it again over the same prefix must give the same shape
+    let s2 = b.smooth(s, ns);
+    shape_ok(s2, &format!("smooth(smooth(f, {}), {})", ns, ns))?;
 
     // counts under arbitrary non-normalised weights
     let mut real = WmcParams::<RealSemiring>::default();
@@ -232,7 +240,7 @@ fn go<'a, T: IteTable<'a, BddPtr<'a>> + Default>(
 impl SubCheckT for Smooth {
     type Case = Case;
     const NAME: &'static str = "smooth";
-    const RULE: &'static str = "BDD picked from a random <=25-op history under a random order (complemented roots and constants included), n_s between (deepest tested level + 1) and num_vars, arbitrary integer weights 0..6 and boundary finite-field residues: smooth(f,n_s) has f's truth table, every path tests exactly the order prefix var_at_level(0..n_s), weighted counts (real, GF(2^64-25)) equal the brute-force sum over models on those n_s variables and the unit-weight count equals the number of models. Up to 3 further smoothings (other pool entries, other n_s) are issued on the same builder and checked the same way, so a result may not depend on earlier calls. Non-trivial: some input path is shorter than n_s and the weights are not all (1,1)";
+    const RULE: &'static str = "BDD picked from a random <=25-op history under a random order (complemented roots and constants included), n_s between (deepest tested level + 1) and num_vars, arbitrary integer weights 0..6 and boundary finite-field residues: smooth(f,n_s) has f's truth table, every path tests exactly the order prefix var_at_level(0..n_s), weighted counts (real, GF(2^64-25)) equal the brute-force sum over models on those n_s variables and the unit-weight count equals the number of models. The smoothed result is smoothed once more over the same prefix and must keep that shape. Up to 3 further smoothings (other pool entries, other n_s) are issued on the same builder and checked the same way, so a result may not depend on earlier calls. Non-trivial: some input path is shorter than n_s and the weights are not all (1,1)";
     fn cases(tier: Tier) -> u32 {
         tier.pick(40_000, 400_000)
     }
